@@ -274,7 +274,11 @@ func runF(c fcase, m *module, cls []pcls, dir string) (init fobsG, obs []fobsG, 
 		}
 		settled := waitUntil(fileBound, func() bool { return atomic.LoadInt64(&h.n) >= before+need })
 		want := append([]string{}, cur...)
-		settled = waitUntil(fileBound, func() bool {
+		bound2 := fileBound
+		if !settled { // the Handle calls did not come: the state will not move any more
+			bound2 = 200 * time.Millisecond
+		}
+		settled = waitUntil(bound2, func() bool {
 			return sameStrings(inForceFPs(m), want) && ds.VerifClosed() == wantClosed
 		}) && settled
 		obs = append(obs, fobsG{Closed: ds.VerifClosed(), InForce: inForceFPs(m), Handles: int(atomic.LoadInt64(&h.n) - before), Settled: settled})
@@ -437,6 +441,20 @@ func runFile(a cli.Args, root *rng.R, ms []*module, rep *emit.Report, sh *emit.S
 		return
 	}
 	for i := 0; i < n; i++ {
+		if fileFailures(rep) >= 3 { // every failing operation costs a bounded wait: three concrete failures are enough
+			rep.Count("file_cases_skipped_after_three_failures", n-i)
+			break
+		}
 		runOne(fileBase+i, !a.Search)
 	}
+}
+
+func fileFailures(rep *emit.Report) int {
+	n := 0
+	for _, f := range rep.MonitorFailures {
+		if f.Clause == "C18_file_converges" {
+			n++
+		}
+	}
+	return n
 }
